@@ -63,6 +63,8 @@ def compare_runtime(expected, got, rtol=1e-5, atol=1e-6):
     if a.shape != b.shape:
         return f"shape {a.shape} vs {b.shape}"
     if a.dtype.kind in "fc":
+        if a.dtype == np.float16:      # "within rounding": a few units in the last place of the 11-bit significand
+            rtol, atol = max(rtol, 4e-3), max(atol, 4e-3)
         return None if np.allclose(a, b, rtol=rtol, atol=atol, equal_nan=True) else f"values differ (max abs {np.nanmax(np.abs(a - b)) if a.size else 0})"
     return None if np.array_equal(a, b) else "values differ"
 
